@@ -17,13 +17,15 @@ flattening succeeds,
   (`leaf_data_kept`, `io_only_top_level`, `other_prefixes_kept`);
 * the instance equations are exactly the equations (own and inherited, `MemberEq`) of every class
   instantiated at some instance path (`InstAt`), each renamed at that path
-  (`eqs_are_instance_eqs`), where renaming replaces a reference `r` written in instance `P` by
-  the flat variable `P ++ r` iff that is a flat variable and leaves it alone otherwise
+  (`eqs_are_instance_eqs`), likewise the initial equations (`initial_eqs_are_instance_eqs`),
+  where renaming replaces a reference `r` written in instance `P` by the flat variable `P ++ r`
+  iff that is a flat variable and leaves it alone otherwise, also inside subscripts
   (`reference_renaming`).
 
 Also: the result does not depend on the fuel once it suffices (`fuel_irrelevant`), and type names
-are looked up lexically — innermost enclosing class that declares the first identifier
-(`lookup_is_lexical`, about stage 1, `Model/FlattenSrc.lean`).
+are looked up the Modelica way — innermost enclosing class in which a class of that name is
+visible (own local classes, then inherited ones) (`lookup_is_lexical`, about stage 1,
+`Model/FlattenSrc.lean`).
 
 Paths are lists of identifiers; the driver prints them dotted (identifiers contain no dot).
 -/
